@@ -55,3 +55,50 @@ fn possible_batch() {
         }
     }
 }
+
+/// line: `<target name relative to the project base, hex> <existing .do file relative to the base, hex | ->`
+/// A project is laid out under a temporary directory *below* an extra directory level (so that candidates above the base are
+/// inside the sandbox too), the real find_do_file runs for the target, and the edges it recorded are printed as
+/// `<source name>:<mode>`.
+#[test]
+fn find_do_file_batch() {
+    use crate::state::verif_replay::build_world;
+    use crate::state::{File, ProcessTransaction};
+    use rusqlite::TransactionBehavior;
+    let home = std::env::current_dir().unwrap();
+    for (i, l) in lines().iter().enumerate() {
+        let parts: Vec<&str> = l.split(' ').collect();
+        let tname = String::from_utf8(unhex(parts[0])).unwrap();
+        let line = format!("R=5 T=2 OP=find F=2,{},1,0,N,N,N,N,N", parts[0]);
+        let lp: Vec<&str> = line.split(' ').collect();
+        let mut w = build_world(&lp);
+        let base = w.dir.path().to_path_buf();
+        if let Some(d) = base.join(&tname).parent() {
+            std::fs::create_dir_all(d).unwrap();
+        }
+        if parts[1] != "-" {
+            let dn = String::from_utf8(unhex(parts[1])).unwrap();
+            let p = if dn.starts_with('/') { std::path::PathBuf::from(&dn) } else { base.join(&dn) };
+            // never create files outside the sandbox directory
+            if p.starts_with(&base) {
+                std::fs::create_dir_all(p.parent().unwrap()).unwrap();
+                std::fs::write(&p, b"echo hi\n").unwrap();
+            }
+        }
+        let res = std::panic::catch_unwind(std::panic::AssertUnwindSafe(|| -> String {
+            let mut ptx = ProcessTransaction::new(&mut w.ps, TransactionBehavior::Immediate).unwrap();
+            let mut f = File::from_id(&mut ptx, 2).unwrap();
+            let r = find_do_file(&mut ptx, &mut f);
+            let found = match r {
+                Ok(Some(_)) => "FOUND",
+                Ok(None) => "NONE",
+                Err(_) => "ERR",
+            };
+            ptx.commit().unwrap();
+            found.to_string()
+        }));
+        let edges = crate::state::verif_replay::dump_named_deps(&w.ps, 2);
+        println!("VERIF-OUT {} {} {}", i, res.unwrap_or("PANIC".to_string()), edges);
+        std::env::set_current_dir(&home).unwrap();
+    }
+}
